@@ -1,17 +1,19 @@
 import SockModel.Drive.Common
-import SockModel.Model.Fd
+import SockModel.Spec.C14
 /-! Driver for C14: validates fault-injection transcripts of `harness/scen/faults.cpp`.
 
-* `Spec` part (observations only): a failed system call is reported by an exception that carries its
-  code, or - inside `Step` - by the documented channel; no bogus success / bogus failure; every
-  descriptor opened by a throwing call is closed before the exception escapes, nothing else is closed,
-  nothing is closed twice; after teardown the ledger is empty; the fault-free follow-up works.
+* spec (observations only): the transcript is parsed into typed observations `Spec.Obs` (`toItem`, `toEv`,
+  `toOutcome`, `toStep`, `roundObs`) and handed to `Spec.specRun` of `Spec/C14.lean` - this file contains no
+  property clause of its own (one source of truth; `Fd.Spec.model_satisfies_spec` proves that the predicate
+  accepts every trace of the model).  A line that cannot be typed (unknown call name, descriptor label that
+  is not `fd<k>`) is a `corr` verdict "malformed transcript".
 * correspondence: the scenario's program of `Model/Fd.lean`, run under the fault oracle read off the
   observed trace, predicts the same outcomes, events and closes; fault-free call traces agree with the
   model's up to reordering of the order-insensitive calls.
 -/
 namespace SockModel.Drive.C14
 open SockModel SockModel.Drive SockModel.Fd
+open SockModel.Fd.Spec (sysName)
 
 /-! ## observations -/
 
@@ -121,99 +123,81 @@ def parseCase (body : List String) : CaseObs :=
           | _, _, _ => p
   p.flushRound.c
 
-/-! ## the property on observations only -/
+/-! ## typed observations for `Spec/C14.lean` (no property clause lives in this file) -/
 
 def udpOrAcceptorScenario (scen : String) : Bool :=
   scen == "udp_async_recv" || scen == "acceptor_async_accept"
 
-def catOf (name : String) : String :=
-  if name == "getaddrinfo" || name == "getnameinfo" then "address" else "system"
+def allSys : List Sys :=
+  [.socket, .bind, .listen, .connect, .accept, .fcntl, .setsockopt, .getsockopt, .getsockname, .getpeername,
+   .send, .sendto, .recv, .recvfrom, .poll, .getaddrinfo, .getnameinfo]
 
-/-- ledger bookkeeping over the items of one phase; returns the open set or an error -/
-def applyItems (opened : List String) (items : List Item) : Except String (List String × List String × List String) :=
-  -- result: (open set, descriptors opened in this phase, descriptors closed in this phase)
-  items.foldlM (init := (opened, [], [])) fun (o, n, c) it =>
-    match it with
-    | .sys _ _ _ _ (some nfd) =>
-      if o.contains nfd then .error s!"descriptor {nfd} opened twice" else .ok (o ++ [nfd], n ++ [nfd], c)
-    | .sys .. => .ok (o, n, c)
-    | .close fd =>
-      if o.contains fd then .ok (o.erase fd, n, c ++ [fd])
-      else .error s!"close of {fd}, which is not an open descriptor of the library (closed twice or foreign)"
-    | .badclose what => .error s!"the shim's ledger reports: {what}"
+def parseSys (n : String) : Option Sys := allSys.find? fun c => sysName c == n
 
-def specStep (scen : String) (opened : List String) (s : StepObs) : Except String (List String × List String) := do
-  let (o, newFds, closedFds) ← applyItems opened s.items
-  let fails := s.items.filter Item.isFail
-  let mut tags : List String := []
-  let isExn := s.outcome.head? == some "exn"
-  let isOk := s.outcome == ["ok"]
-  if !isExn && !isOk then throw s!"step without a proper outcome ({s.outcome})"
-  match fails.head? with
-  | none =>
-    -- no OS failure: the call must simply work ("the library remains usable", no bogus failure)
-    if !isOk then throw s!"call failed ({s.outcome}) although no system call failed"
-    if s.evs.any (fun e => e == "disconnect" || e.startsWith "future exn" || e.startsWith "future broken") then
-      throw s!"failure event {s.evs} although no system call failed"
-  | some (.sys name _ _ _ _) =>
-    tags := s!"fault.{name}" :: tags
-    let matchesExn := fails.any fun f =>
-      match f with
-      | .sys n _ _ code _ => s.outcome == ["exn", catOf n, toString code]
-      | _ => false
-    if s.kind == "drive" then
-      if name == "poll" || (name == "recvfrom" && !udpOrAcceptorScenario scen) then
-        if !matchesExn then throw s!"{name} failed inside Step but Step ended with {s.outcome}"
-        tags := "chan.exn" :: tags
-      else if name == "recv" then
-        if !(isOk && s.evs.contains "disconnect") then
-          throw s!"recv failed inside Step: expected the disconnect handler, saw {s.outcome} {s.evs}"
-        if s.evs.any (·.startsWith "receive") then throw "receive handler called although recv failed"
-        tags := "chan.disconnect" :: tags
-      else if name == "send" || name == "sendto" then
-        if !(isOk && s.evs.any (·.startsWith "future exn")) then
-          throw s!"{name} failed inside Step: expected an exception in the send future, saw {s.outcome} {s.evs}"
-        tags := "chan.future" :: tags
-      else if udpOrAcceptorScenario scen then
-        -- deliberately discarded by the library (onError is a no-op for UDP sockets and acceptors)
-        if !isOk then throw s!"{name} failed inside Step (UDP/acceptor): Step ended with {s.outcome}"
-        if s.evs.any (fun e => e.startsWith "receivefrom" || e == "connect") then
-          throw s!"handler invoked ({s.evs}) although {name} failed"
-        tags := "chan.discard" :: tags
-      else throw s!"unexpected failing call {name} inside Step"
-    else
-      if isOk then throw s!"{name} failed but the call returned normally (bogus success)"
-      if !matchesExn then throw s!"{name} failed but the exception is {s.outcome}: not the code of a failed call"
-      tags := "chan.exn" :: tags
-  | some _ => pure ()
-  -- ownership
-  let delivered := isOk && (fails.isEmpty)
-  if !delivered then
-    -- nothing is handed to the caller: everything opened by this call must be closed again by now
-    for fd in newFds do
-      if o.contains fd then throw s!"descriptor {fd} opened by the failing call is still open when it returns ({s.outcome}): leak"
-  for fd in closedFds do
-    if !newFds.contains fd then
-      if !(s.kind == "consume" && isExn) then
-        throw s!"descriptor {fd}, owned by a live object, was closed by a {s.kind} call ending in {s.outcome}"
-  pure (o, tags)
+/-- `fd<k>` -/
+def parseFd (s : String) : Option Nat :=
+  if s.startsWith "fd" then (s.drop 2).toString.toNat? else none
 
-def specRound (scen : String) (r : RoundObs) : Except String (List String) := do
-  let (o0, _, _) ← applyItems [] r.setupItems
-  -- descriptors opened quietly during setup
-  let mut o := o0 ++ r.have_.filter (fun f => !o0.contains f)
-  let mut tags : List String := []
-  for s in r.steps do
-    let (o', t) ← specStep scen o s
-    o := o'
-    tags := t ++ tags
-  let (o', _, _) ← applyItems o r.teardown
-  if !o'.isEmpty then throw s!"descriptors {o'} still open after every object was destroyed: leak"
-  match r.ledger with
-  | some (0, 0) => pure ()
-  | some (n, e) => throw s!"shim ledger after teardown: {n} descriptors open, {e} close errors"
-  | none => throw "round without ledger line"
-  pure tags
+def toItem : Item → Except String Spec.Item
+  | .sys name _ cls code newfd =>
+    match parseSys name with
+    | none => .error s!"unknown system call {name}"
+    | some c =>
+      if cls == "ok" then
+        match newfd with
+        | none => .ok (.call c (.ok none))
+        | some l =>
+          match parseFd l with
+          | some n => .ok (.call c (.ok (some n)))
+          | none => .error s!"bad descriptor label {l}"
+      else if cls == "fault" || cls == "err" then .ok (.call c (.fail code))
+      else .error s!"unknown result class {cls}"
+  | .close fd =>
+    match parseFd fd with
+    | some n => .ok (.close n)
+    | none => .error s!"bad descriptor label {fd}"
+  | .badclose what => .ok (.badclose what)
+
+def toEv (e : String) : Spec.Ev :=
+  let k : Spec.EvKind :=
+    match words e with
+    | ["disconnect"] => .disconnect
+    | ["connect"] => .connect
+    | "future" :: "exn" :: _ => .futureExn
+    | "future" :: "broken" :: _ => .futureBroken
+    | "future" :: "value" :: _ => .futureValue
+    | "receive" :: _ => .receive
+    | "receivefrom" :: _ => .receiveFrom
+    | _ => .other
+  ⟨k, e⟩
+
+def toCat (s : String) : Spec.Cat :=
+  if s == "system" then .system else if s == "address" then .address else if s == "logic" then .logic
+  else if s == "runtime" then .runtime else .other s
+
+def toOutcome (w : List String) : Spec.Outcome :=
+  match w with
+  | ["ok"] => .ok
+  | ["exn", cat, code] =>
+    match code.toInt? with
+    | some n => .exn (toCat cat) n
+    | none => .improper w
+  | _ => .improper w
+
+def toKind (s : String) : Spec.StepKind :=
+  if s == "ctor" then .ctor else if s == "op" then .op else if s == "accept" then .accept
+  else if s == "consume" then .consume else if s == "drive" then .drive else .other s
+
+def toStep (s : StepObs) : Except String Spec.StepObs := do
+  let items ← s.items.mapM toItem
+  pure { kind := toKind s.kind, items := items, evs := s.evs.map toEv, outcome := toOutcome s.outcome }
+
+def roundObs (r : RoundObs) : Except String (List Spec.Obs) := do
+  let setup ← r.setupItems.mapM toItem
+  let have_ ← r.have_.mapM fun l => match parseFd l with | some n => .ok n | none => .error s!"bad descriptor label {l}"
+  let steps ← r.steps.mapM toStep
+  let td ← r.teardown.mapM toItem
+  pure ([.setup setup have_] ++ steps.map .step ++ [.teardown td r.ledger])
 
 /-! ## the model side -/
 
@@ -335,12 +319,6 @@ def runModel (acts : List Act) (td : List String) (o : Oracle) (rounds : Nat) : 
     (rs ++ [r], L', sid')
   (rs, L)
 
-def sysName : Sys → String
-  | .socket => "socket" | .bind => "bind" | .listen => "listen" | .connect => "connect" | .accept => "accept"
-  | .fcntl => "fcntl" | .setsockopt => "setsockopt" | .getsockopt => "getsockopt" | .getsockname => "getsockname"
-  | .getpeername => "getpeername" | .send => "send" | .sendto => "sendto" | .recv => "recv" | .recvfrom => "recvfrom"
-  | .poll => "poll" | .getaddrinfo => "getaddrinfo" | .getnameinfo => "getnameinfo"
-
 def exnWords : Exn → List String
   | .system e => ["exn", "system", toString e]
   | .address e => ["exn", "address", toString e]
@@ -398,17 +376,19 @@ def check (c : CaseObs) : Verdict :=
   | some b => Verdict.corr s!"harness rejected the case: {b}"
   | none =>
   if c.plan.head? == some "none" then { tags := ["plan.none"] } else
-  match c.crash with
-  | some w => Verdict.spec s!"crash while running {c.scen} with faults {c.plan}: {w}"
-  | none =>
-  if !c.done then Verdict.spec s!"scenario {c.scen} did not run to completion (faults {c.plan})" else
-  -- 1. the property, on the observations alone
-  let specRes : Except String (List String) := c.rounds.foldlM (init := []) fun tags r => do
-    let t ← specRound c.scen r
-    pure (t ++ tags)
-  match specRes with
-  | .error msg => Verdict.spec s!"{c.scen} faults {c.plan}: {msg}"
-  | .ok tags =>
+  let ctx : Spec.Ctx := { scen := c.scen, plan := c.plan, discards := udpOrAcceptorScenario c.scen }
+  -- 1. the property, on the observations alone: `Spec.specRun` (a crash / an unfinished run first)
+  let pre : List Spec.Obs := (match c.crash with | some w => [.crash w] | none => []) ++ (if c.done then [] else [.incomplete])
+  match Spec.specRun ctx {} pre with
+  | .error msg => Verdict.spec msg
+  | .ok _ =>
+  match c.rounds.mapM roundObs with
+  | .error m => Verdict.corr s!"{c.scen} faults {c.plan}: malformed transcript: {m}"
+  | .ok obs =>
+  match Spec.specRun ctx {} obs.flatten with
+  | .error msg => Verdict.spec msg
+  | .ok sp =>
+  let tags := sp.tags
   -- 2. correspondence with the model
   match scenario c.scen with
   | none => Verdict.corr s!"no model program for scenario {c.scen}" tags
